@@ -67,6 +67,9 @@ func Scenarios(thorough bool) map[string]*Scenario {
 	// removes every old pod, then creates the new ones)
 	m["Q05r"] = &Scenario{ID: "Q05r", Kind: "Deployment", Style: "canary", Replicas: 2, Recreate: true,
 		Steps: []StepSpec{{Replicas: "1"}, {Replicas: "2"}}}
+	// CloneSet blue-green + nginx Ingress + HPA
+	m["Q09"] = &Scenario{ID: "Q09", Kind: "CloneSet", Style: "bluegreen", Replicas: 2, Traffic: "ingress", Grace: 1, HPA: true,
+		Steps: []StepSpec{{Replicas: "100%", Traffic: "0%"}, {Replicas: "100%", Traffic: "100%"}}}
 	// Kruise Advanced DaemonSet (3 nodes), absolute steps
 	m["Q11"] = &Scenario{ID: "Q11", Kind: "DaemonSet", Style: "partition", Replicas: 3,
 		Steps: []StepSpec{{Replicas: "1"}, {Replicas: "2"}, {Replicas: "3"}}}
@@ -135,7 +138,7 @@ func Plans(thorough bool) map[string]PropertyPlan {
 func plans0(thorough bool) map[string]PropertyPlan {
 	// every workload kind / style and every traffic provider built into E1; the partition-style Deployment (whose
 	// advanced Deployment controller makes each transition expensive) only in the thorough tier
-	c06Scenarios := []string{"Q02", "Q01b", "Q03", "Q05", "Q08", "Q10", "Q11", "Q20", "Q22", "Q31"}
+	c06Scenarios := []string{"Q02", "Q01b", "Q03", "Q05", "Q08", "Q09", "Q10", "Q11", "Q20", "Q22", "Q31"}
 	if thorough {
 		c06Scenarios = append(c06Scenarios, "Q07", "Q01r", "Q04")
 	}
@@ -148,25 +151,25 @@ func plans0(thorough bool) map[string]PropertyPlan {
 		u = 2
 	}
 	return map[string]PropertyPlan{
-		"C01": {Scenarios: []string{"Q01", "Q01b", "Q01c", "Q05", "Q07", "Q08", "Q10", "Q11"}, Actions: []string{"scaleUp", "scaleDown", "editPlanInts", "editPlanLow", "editPlanMore", "jump(1)", "jump(3)", "pause", "resume"}, MaxUser: u,
+		"C01": {Scenarios: []string{"Q01", "Q01b", "Q01c", "Q05", "Q07", "Q08", "Q09", "Q10", "Q11"}, Actions: []string{"scaleUp", "scaleDown", "editPlanInts", "editPlanLow", "editPlanMore", "jump(1)", "jump(3)", "pause", "resume"}, MaxUser: u,
 			FreeQueues: true, StateCap: capQ, Monitors: func(w *World, sc *Scenario) []Monitor { return []Monitor{ExposureMonitor{}} }},
-		"C02": {Scenarios: []string{"Q01", "Q01b", "Q04", "Q05", "Q08"}, Actions: []string{"pause", "resume", "editPlanMore", "rollback"}, MaxUser: u, Disturbances: []string{"crash", "midcrash"}, MaxDisturb: 1,
+		"C02": {Scenarios: []string{"Q01", "Q01b", "Q04", "Q05", "Q08", "Q09"}, Actions: []string{"pause", "resume", "editPlanMore", "rollback"}, MaxUser: u, Disturbances: []string{"crash", "midcrash"}, MaxDisturb: 1,
 			FreeQueues: true, StateCap: capQ, Monitors: func(w *World, sc *Scenario) []Monitor { return []Monitor{StepMonitor{}} }},
-		"C11": {Scenarios: []string{"Q01", "Q01b", "Q01r", "Q05", "Q05r", "Q07", "Q08", "Q10", "Q11"}, Actions: []string{"scaleUp", "scaleDown", "editPlanMore", "degrade", "jump(1)"}, MaxUser: u,
+		"C11": {Scenarios: []string{"Q01", "Q01b", "Q01r", "Q05", "Q05r", "Q07", "Q08", "Q09", "Q10", "Q11"}, Actions: []string{"scaleUp", "scaleDown", "editPlanMore", "degrade", "jump(1)"}, MaxUser: u,
 			FreeQueues: true, StateCap: capQ, Monitors: func(w *World, sc *Scenario) []Monitor { return []Monitor{BatchStatusMonitor{}} }},
-		"C03": {Scenarios: []string{"Q02", "Q02d", "Q03d", "Q05", "Q08", "Q30"}, Actions: []string{"jump(2)", "jump(3)", "jump(1)", "editPlanMore", "scaleUp"}, MaxUser: u,
+		"C03": {Scenarios: []string{"Q02", "Q02d", "Q03d", "Q05", "Q08", "Q09", "Q30"}, Actions: []string{"jump(2)", "jump(3)", "jump(1)", "editPlanMore", "scaleUp"}, MaxUser: u,
 			FreeQueues: true, StateCap: capQ, Monitors: func(w *World, sc *Scenario) []Monitor { return []Monitor{TrafficOrderMonitor{}} }},
-		"C04": {Scenarios: []string{"Q02", "Q02c", "Q02s", "Q03", "Q05", "Q05p", "Q08", "Q30"}, Actions: []string{"rollback", "release3", "disable", "deleteRollout", "jump(2)"}, MaxUser: u, Disturbances: []string{"crash"}, MaxDisturb: 1,
+		"C04": {Scenarios: []string{"Q02", "Q02c", "Q02s", "Q03", "Q05", "Q05p", "Q08", "Q09", "Q30"}, Actions: []string{"rollback", "release3", "disable", "deleteRollout", "jump(2)"}, MaxUser: u, Disturbances: []string{"crash"}, MaxDisturb: 1,
 			FreeQueues: true, StateCap: capQ, Monitors: func(w *World, sc *Scenario) []Monitor { return []Monitor{VoidMonitor{}} }},
-		"C10": {Scenarios: []string{"Q02", "Q05", "Q08"}, Actions: []string{"rollback", "release3", "jump(1)"}, NoCostActions: []string{"jump(1)"}, MaxUser: 1, Disturbances: []string{"crash", "midcrash"}, MaxDisturb: 1,
+		"C10": {Scenarios: []string{"Q02", "Q05", "Q08", "Q09"}, Actions: []string{"rollback", "release3", "jump(1)"}, NoCostActions: []string{"jump(1)"}, MaxUser: 1, Disturbances: []string{"crash", "midcrash"}, MaxDisturb: 1,
 			FreeQueues: true, StateCap: capQ, Monitors: func(w *World, sc *Scenario) []Monitor { return []Monitor{RollbackOrderMonitor{}} }},
-		"C05": {Scenarios: []string{"Q02", "Q01b", "Q03", "Q05", "Q07", "Q07r", "Q08", "Q10", "Q11", "Q31"}, Actions: []string{"rollback", "release3", "disable", "deleteRollout", "editPlanMore", "deleteCanary", "deleteVS"}, MaxUser: u,
+		"C05": {Scenarios: []string{"Q02", "Q01b", "Q03", "Q05", "Q07", "Q07r", "Q08", "Q09", "Q10", "Q11", "Q31"}, Actions: []string{"rollback", "release3", "disable", "deleteRollout", "editPlanMore", "deleteCanary", "deleteVS"}, MaxUser: u,
 			FreeQueues: true, StateCap: capQ, Monitors: func(w *World, sc *Scenario) []Monitor { return []Monitor{&ExitMonitor{Base: CaptureBaseline(w, sc)}} }},
-		"C18": {Scenarios: []string{"Q02", "Q01b", "Q05", "Q20", "Q22", "Q30"}, Actions: []string{"deleteRollout", "deleteWorkload", "deleteTR"}, MaxUser: 2, Disturbances: []string{"crash", "midcrash", "error"}, MaxDisturb: 1,
+		"C18": {Scenarios: []string{"Q02", "Q01b", "Q05", "Q09", "Q20", "Q22", "Q30"}, Actions: []string{"deleteRollout", "deleteWorkload", "deleteTR"}, MaxUser: 2, Disturbances: []string{"crash", "midcrash", "error"}, MaxDisturb: 1,
 			FreeQueues: true, StateCap: capQ, Monitors: func(w *World, sc *Scenario) []Monitor {
 				return []Monitor{FinalizerMonitor{Base: CaptureBaseline(w, sc)}}
 			}},
-		"C07": {Scenarios: []string{"Q01", "Q01b", "Q01c", "Q01r", "Q02", "Q03", "Q05", "Q05g", "Q05r", "Q07", "Q07m", "Q08", "Q10", "Q11"}, Actions: nil, MaxUser: 0,
+		"C07": {Scenarios: []string{"Q01", "Q01b", "Q01c", "Q01r", "Q02", "Q03", "Q05", "Q05g", "Q05r", "Q07", "Q07m", "Q08", "Q09", "Q10", "Q11"}, Actions: nil, MaxUser: 0,
 			FreeQueues: false, Liveness: true, StateCap: capQ, Monitors: func(w *World, sc *Scenario) []Monitor { return []Monitor{PanicMonitor{}} }},
 		"C06": {Scenarios: c06Scenarios, Actions: nil, MaxUser: 0, Disturbances: []string{"crash", "midcrash", "error", "conflict"}, MaxDisturb: 1,
 			FreeQueues: true, StateCap: capQ, Relabel: true, LiveScenarios: []string{"Q01b"},
